@@ -456,6 +456,9 @@ fn with_injection(base: &AEv, inj: &Inject) -> Option<AEv> {
             match inj.at {
                 1 if s.rx1.is_none() => s.rx1 = Some(inj.frame.clone()),
                 2 if s.rx2.is_none() => s.rx2 = Some(inj.frame.clone()),
+                // Class C: a frame heard while the device listens between the join request and its windows
+                3 => s.rxc1.insert(0, inj.frame.clone()),
+                4 => s.rxc2.insert(0, inj.frame.clone()),
                 _ => return None,
             }
             Some(AEv::Join(s))
@@ -688,8 +691,9 @@ pub fn run(tier: Tier, replay: Option<&str>) {
             let d = if otaa { DevCfg::otaa(r) } else { DevCfg::abp(r) };
             runs.push(RunCfg { front: "nb".into(), class_c: false, bound: 1, dev: d.clone() });
             runs.push(RunCfg { front: "async".into(), class_c: false, bound: 1, dev: d.clone() });
+            // (OTAA with Class C enabled: frames heard between a join request and its windows)
+            runs.push(RunCfg { front: "async".into(), class_c: true, bound: 1, dev: d.clone() });
             if !otaa {
-                runs.push(RunCfg { front: "async".into(), class_c: true, bound: 1, dev: d.clone() });
                 if *r == "EU868" {
                     // an application that leaves downlinks in the queue across the next uplink's windows
                     let mut h = d;
